@@ -87,6 +87,12 @@ func c03Cases() []c03Case {
 		out = append(out, c03Case{12, honest, "cert", "ecdsa", honest == "c", true, 0, "resumed:verify-connection-rejects"})
 		out = append(out, c03Case{12, honest, "psk", "", false, true, 0, "resumed:verify-connection-rejects"})
 	}
+	for policy := 1; policy <= 4; policy++ {
+		// a certificate-authenticated client whose certificate the server application stops accepting
+		// (revoked, say) between two connections: the VerifyPeerCertificate callback must be asked
+		// again - or the session must not be resumable at all
+		out = append(out, c03Case{12, "s", "cert", "ecdsa", false, true, policy, "resumed:peer-certificate-callback-rejects"})
+	}
 	for _, ver := range []int{12, 13} {
 		// the client names the server by its IP address
 		out = append(out, c03Case{ver, "c", "cert", "ecdsa", true, false, 0, "ip-name:none"})
@@ -248,7 +254,7 @@ func c03Run(rc *RunCtx, params any) {
 	s := rc.S
 	rc.R.Class = fmt.Sprintf("v%d/%s/%s/%s", p.Ver, p.Honest, p.Auth, p.Dev)
 	rc.R.NonTriv = p.Dev != "none"
-	if p.Dev == "resumed:verify-connection-rejects" {
+	if p.Dev == "resumed:verify-connection-rejects" || p.Dev == "resumed:peer-certificate-callback-rejects" {
 		c03ResumeCallback(rc, p)
 
 		return
@@ -780,6 +786,14 @@ func c03ResumeCallback(rc *RunCtx, p *C03Params) {
 		cspec, sspec = certPair12(suiteECDSAGCM, "srv-ecdsa")
 	}
 	rc.Note("proto", "dtls12")
+	certCB := p.Dev == "resumed:peer-certificate-callback-rejects"
+	if certCB {
+		cspec.Cert = "cli-ecdsa"
+		sspec.ClientAuth = p.Policy
+		if p.Policy >= int(dtls.VerifyClientCertIfGiven) {
+			sspec.UseRoots, sspec.VerifyPeer = 1, true
+		}
+	}
 	cspec.Store, sspec.Store = "cstore", "sstore"
 	stores := map[string]dtls.SessionStore{"cstore": NewSimStore(s, "cstore", 0), "sstore": NewSimStore(s, "sstore", 0)}
 	n1 := NewSimNet(s, NetRules{})
@@ -800,11 +814,19 @@ func c03ResumeCallback(rc *RunCtx, p *C03Params) {
 	asked := 0
 	env2 := &Env{Stores: stores, Extra: map[string][]dtls.Option{}}
 	name := map[string]string{"c": "c2", "s": "s2"}[p.Honest]
-	env2.Extra[name] = append(env2.Extra[name], dtls.WithVerifyConnection(func(*dtls.State) error {
-		asked++
+	if certCB {
+		env2.Extra[name] = append(env2.Extra[name], dtls.WithVerifyPeerCertificate(func([][]byte, [][]*x509.Certificate) error {
+			asked++
 
-		return errors.New("verif: the application no longer authorises this peer")
-	}))
+			return errors.New("verif: this client certificate has been revoked")
+		}))
+	} else {
+		env2.Extra[name] = append(env2.Extra[name], dtls.WithVerifyConnection(func(*dtls.State) error {
+			asked++
+
+			return errors.New("verif: the application no longer authorises this peer")
+		}))
+	}
 	n2 := NewSimNet(s, p.Rules)
 	p2, err := NewPairNamed(s, n2, cspec, sspec, env2, "c2", "s2")
 	if err != nil {
@@ -831,7 +853,7 @@ func c03ResumeCallback(rc *RunCtx, p *C03Params) {
 		hs = p2.SHs
 	}
 	if hs.Done && hs.Err == nil {
-		rc.Violate(fmt.Sprintf("established-without-credential:v12:%s:%s", p.Honest, p.Dev), "the honest %s reports a successful handshake (abbreviated=%v) although its VerifyConnection callback refuses every peer; the callback was asked %d times on this connection", map[string]string{"c": "client", "s": "server"}[p.Honest], abbreviated, asked)
+		rc.Violate(fmt.Sprintf("established-without-credential:v12:%s:%s", p.Honest, p.Dev), "the honest %s reports a successful handshake (abbreviated=%v) although its %s callback refuses every peer (client-auth policy %d); the callback was asked %d times on this connection", map[string]string{"c": "client", "s": "server"}[p.Honest], abbreviated, map[bool]string{true: "VerifyPeerCertificate", false: "VerifyConnection"}[certCB], p.Policy, asked)
 	} else {
 		s.Probe("must-fail:" + p.Dev)
 	}
